@@ -31,12 +31,13 @@ sub=$(echo "$chk" | grep -o "failing job [A-Za-z0-9_#]*" | sort -u | tr '\n' ' '
 summary=$(echo "$chk" | grep -E "seed=" | tail -1)
 cp "$DIFF" "$OUT/patch.diff"; cp "$DEMO" "$OUT/$demo_name"
 detected=no; [ "$rc" -gt 0 ] && detected=yes
-export M_PID="$PID" M_PKG="$PKG" M_MOD="$MOD" M_FN="$fn" M_COMP="$compiles" M_DC="$demo_clean" M_DM="$demo_mut" M_EX="$existing" M_DET="$detected" M_SUB="$sub" M_SUM="$summary"
+export M_L="$L" M_PID="$PID" M_PKG="$PKG" M_MOD="$MOD" M_FN="$fn" M_COMP="$compiles" M_DC="$demo_clean" M_DM="$demo_mut" M_EX="$existing" M_DET="$detected" M_SUB="$sub" M_SUM="$summary"
 python3 - "$OUT/meta.json" <<'PY'
 import json,sys,os
 e=os.environ
 json.dump({"property":e["M_PID"],"package":e["M_PKG"],"module":e["M_MOD"],"demo_test":e["M_FN"],
  "confirmed":{"compiles":e["M_COMP"],"demo_on_clean_tree":e["M_DC"],"demo_with_change":e["M_DM"],"existing_package_tests_with_change":e["M_EX"]},
- "check_run":{"command":"VERIF_REPO=<worktree with patch> ./run %s quick"%e["M_PID"],"detected":e["M_DET"],"failing_sub_checks":e["M_SUB"],"summary":e["M_SUM"]}}, open(sys.argv[1],"w"), indent=1)
+ "check_run":{"command":"VERIF_REPO=<worktree with patch> ./run %s quick"%e["M_PID"],"detected":e["M_DET"],"failing_sub_checks":e["M_SUB"],"summary":e["M_SUM"]},
+ **json.load(open("/verif/tools/seed_notes.json")).get(e["M_PID"]+"-"+e["M_L"],{})}, open(sys.argv[1],"w"), indent=1)
 PY
 echo "$PID-$L: compiles=$compiles demo_clean=$demo_clean demo_mut=$demo_mut existing=$existing detected=$detected [$sub] $summary"
